@@ -8,8 +8,21 @@
  *                (static is_unescaped_in_path/_query: this TU includes src/coap_uri.c)
  *   phrases      coap_response_phrase() for every code
  *   filter_short / filter_long   capacity of a coap_opt_filter_t, measured with coap_option_filter_set()
+ *   preset_res / preset_unk / preset_prx   bit m-1 set iff handler[m-1] != NULL right after coap_resource_init() /
+ *                coap_resource_unknown_init2(h) / coap_resource_proxy_uri_init2(h, 1 name): the handlers the
+ *                constructors register by themselves
  */
 #include "coap_uri.c" /* through -I <repo>/src */
+
+static void preset_h(coap_resource_t *r, coap_session_t *s, const coap_pdu_t *q, const coap_string_t *y, coap_pdu_t *p) {
+  (void)r; (void)s; (void)q; (void)y; (void)p;
+}
+static unsigned preset_of(const coap_resource_t *r) {
+  unsigned m = 0;
+  if (!r) return 0xFFFFu;
+  for (size_t i = 0; i < sizeof(r->handler) / sizeof(r->handler[0]); i++) if (r->handler[i]) m |= 1u << i;
+  return m;
+}
 
 static void list_open(const char *name, int *first) { printf("%s\"%s\":[", *first ? "" : ",", name); *first = 0; }
 
@@ -70,6 +83,12 @@ int main(void) {
     for (unsigned n = 1; n < 200 && coap_option_filter_set(&flt, (coap_option_num_t)n); n++) ns++;
     for (unsigned n = 1000; n < 1200 && coap_option_filter_set(&flt, (coap_option_num_t)n); n++) nl++;
     printf(",\"filter_short\":%u,\"filter_long\":%u", ns, nl);
+  }
+  {
+    const char *names[1] = { "p" };
+    printf(",\"preset_res\":%u", preset_of(coap_resource_init(coap_make_str_const("x"), 0)));
+    printf(",\"preset_unk\":%u", preset_of(coap_resource_unknown_init2(preset_h, 0)));
+    printf(",\"preset_prx\":%u", preset_of(coap_resource_proxy_uri_init2(preset_h, 1, names, 0)));
   }
   printf("}\n");
   coap_free_context(ctx);
